@@ -10,8 +10,8 @@ the code).
 * `validator_size_eq_ledger_size` — the size the validators use (all four post-Byron eras, through
   `MultiEraTx::size`) is `ledgerSize`, for every transaction below 4 GiB.
 * `fee_boundary_accept` / `fee_boundary_reject` — for every era, parts, coefficients: a fee of exactly
-  `a * ledgerSize + b` passes the fee rule and one lovelace less is `FeeBelowMin` (as long as the
-  minimum fits the `u32` the code computes it in).
+  `a * ledgerSize + b` passes the fee rule and one lovelace less is `FeeBelowMin` (the minimum is computed in
+  `u64`; `fee_formula_fits`: it always fits for `u32` coefficients and sizes).
 * `size_boundary_accept` / `size_boundary_reject` — the limit is enforced at exactly `ledgerSize`.
 * `accept_iff` — the two rules together accept exactly when `a * ledgerSize + b ≤ fee` and
   `ledgerSize ≤ max`, in either rule order.
@@ -35,14 +35,21 @@ theorem validator_size_eq_ledger_size (p : Parts) (h : ledgerSize p ≤ U32_MAX)
   rw [traverse_size_eq_ledger_size]
   exact Nat.mod_eq_of_lt (by omega)
 
-theorem fee_boundary_accept (a b size : Nat) (h : b + a * size ≤ U32_MAX) :
+/-- the `u64` the minimum fee is computed in is wide enough for any `u32` coefficients and size -/
+theorem fee_formula_fits (a b size : Nat) (ha : a ≤ U32_MAX) (hb : b ≤ U32_MAX) (hs : size ≤ U32_MAX) :
+    b + a * size ≤ U64_MAX := by
+  have : a * size ≤ U32_MAX * U32_MAX := Nat.mul_le_mul ha hs
+  simp only [U32_MAX, U64_MAX] at *
+  omega
+
+theorem fee_boundary_accept (a b size : Nat) (h : b + a * size ≤ U64_MAX) :
     checkMinFee (b + a * size) a b size = .ok := by
-  have h1 : a * size ≤ U32_MAX := by omega
+  have h1 : a * size ≤ U64_MAX := by omega
   simp [checkMinFee, Nat.not_lt.mpr h1, Nat.not_lt.mpr h]
 
-theorem fee_boundary_reject (a b size : Nat) (h : b + a * size ≤ U32_MAX) (hpos : 0 < b + a * size) :
+theorem fee_boundary_reject (a b size : Nat) (h : b + a * size ≤ U64_MAX) (hpos : 0 < b + a * size) :
     checkMinFee (b + a * size - 1) a b size = .feeBelowMin := by
-  have h1 : a * size ≤ U32_MAX := by omega
+  have h1 : a * size ≤ U64_MAX := by omega
   have h2 : b + a * size - 1 < b + a * size := by omega
   simp [checkMinFee, Nat.not_lt.mpr h1, Nat.not_lt.mpr h, h2]
 
@@ -58,11 +65,11 @@ theorem size_boundary_reject (size : Nat) (hpos : 0 < size) :
     a transaction passes the fee and size rules iff its fee is at least `a * ledgerSize + b` and its
     ledger size is within the limit. -/
 theorem accept_iff (era : Era) (p : Parts) (fee a b maxSize : Nat)
-    (hsz : ledgerSize p ≤ U32_MAX) (hmin : b + a * ledgerSize p ≤ U32_MAX) :
+    (hsz : ledgerSize p ≤ U32_MAX) (hmin : b + a * ledgerSize p ≤ U64_MAX) :
     feeAndSize era p fee a b maxSize = .ok ↔ (b + a * ledgerSize p ≤ fee ∧ ledgerSize p ≤ maxSize) := by
   have hv := validator_size_eq_ledger_size p hsz
-  have h1 : ¬ a * ledgerSize p > U32_MAX := by omega
-  have h2 : ¬ b + a * ledgerSize p > U32_MAX := by omega
+  have h1 : ¬ a * ledgerSize p > U64_MAX := by omega
+  have h2 : ¬ b + a * ledgerSize p > U64_MAX := by omega
   cases era <;>
     simp only [feeAndSize, hv, checkMinFee, checkTxSize, h1, h2, if_false] <;>
     by_cases hf : fee < b + a * ledgerSize p <;>
@@ -71,13 +78,13 @@ theorem accept_iff (era : Era) (p : Parts) (fee a b maxSize : Nat)
 
 /-- fee exactly the ledger minimum and limit exactly the ledger size: accepted (every era) -/
 theorem boundary_accept (era : Era) (p : Parts) (a b : Nat)
-    (hsz : ledgerSize p ≤ U32_MAX) (hmin : b + a * ledgerSize p ≤ U32_MAX) :
+    (hsz : ledgerSize p ≤ U32_MAX) (hmin : b + a * ledgerSize p ≤ U64_MAX) :
     feeAndSize era p (b + a * ledgerSize p) a b (ledgerSize p) = .ok :=
   (accept_iff era p _ a b _ hsz hmin).mpr ⟨Nat.le_refl _, Nat.le_refl _⟩
 
 /-- one lovelace below the ledger minimum: never accepted -/
 theorem boundary_reject_fee (era : Era) (p : Parts) (a b maxSize : Nat)
-    (hsz : ledgerSize p ≤ U32_MAX) (hmin : b + a * ledgerSize p ≤ U32_MAX) (hpos : 0 < b + a * ledgerSize p) :
+    (hsz : ledgerSize p ≤ U32_MAX) (hmin : b + a * ledgerSize p ≤ U64_MAX) (hpos : 0 < b + a * ledgerSize p) :
     feeAndSize era p (b + a * ledgerSize p - 1) a b maxSize ≠ .ok := by
   intro h
   have := (accept_iff era p _ a b maxSize hsz hmin).mp h
@@ -85,7 +92,7 @@ theorem boundary_reject_fee (era : Era) (p : Parts) (a b maxSize : Nat)
 
 /-- limit one byte below the ledger size: never accepted -/
 theorem boundary_reject_size (era : Era) (p : Parts) (fee a b : Nat)
-    (hsz : ledgerSize p ≤ U32_MAX) (hmin : b + a * ledgerSize p ≤ U32_MAX) :
+    (hsz : ledgerSize p ≤ U32_MAX) (hmin : b + a * ledgerSize p ≤ U64_MAX) :
     feeAndSize era p fee a b (ledgerSize p - 1) ≠ .ok := by
   intro h
   have := (accept_iff era p fee a b _ hsz hmin).mp h
@@ -109,7 +116,7 @@ example : feeAndSize .conway p1 (155381 + 44 * 302) 44 155381 301 = .maxTxSizeEx
 example : feeAndSize .shelleyMA p1 0 44 155381 301 = .maxTxSizeExceeded := by decide
 example : feeAndSize .alonzo p1 0 44 155381 301 = .feeBelowMin := by decide
 example : feeAndSize .babbage ⟨200, 100, some 50⟩ 1000 1 649 351 = .ok := by decide
-example : checkMinFee 0 4294967295 0 2 = .panic := by decide
+example : checkMinFee 0 4294967295 0 2 = .feeBelowMin := by decide
 example : oldReencodeSize p1 = 303 ∧ oldAlonzoCompSize p1 = 300 := by decide
 
 end PallasVerif.Props.C36
